@@ -27,6 +27,7 @@ unchanged).  At the end of every history the full monitor set runs:
   taxa_bitmask.union / bitmask_taxa_list.roundtrip   for every subset of members (<= 5 members; above:
                                      singletons, pairs, co-singletons, all)
   bitmask_as_newick_string.names_mask / split_as_newick_string.names_mask / bitmask_as_bitstring.names_mask
+  Bipartition.leafset_as_bitstring.names_mask    (taxa_bipartition of the subset, both directions, other symbols)
                                      the "1" side names (multiset of labels) exactly the subset, the other side
                                      exactly the other members; the flat form "(a,b,c);" is accepted for the
                                      empty and the full subset ("do not do the root"); failures on namespaces whose
@@ -616,6 +617,24 @@ class Run(object):
                 F(("bitmask_as_bitstring.names_mask", probe, "mask %s rendered as %r, set bits required at %r" % (bin(mask), s, sorted(wantpos))))
         except Exception as e:
             F(("bitmask_as_bitstring.raises", probe, "%s: %s" % (type(e).__name__, e)))
+        # the same set as a Bipartition made by the namespace, rendered in both directions (reverse=True: first taxon first,
+        # the PAUP* / MrBayes style) and with other symbols
+        if sub:
+            try:
+                b = ns.taxa_bipartition(taxa=list(taxa))
+                width = max(x.bit_length() for x in bits) if bits else 0
+                for rev, s0, s1 in ((False, "0", "1"), (True, "0", "1"), (True, ".", "*")):
+                    s = b.leafset_as_bitstring(symbol0=s0, symbol1=s1, reverse=rev)
+                    # (the string may be wider than the highest member bit -- slots of removed taxa --: what it NAMES is compared)
+                    lsb_first = s if rev else s[::-1]
+                    named = set(j for j, ch in enumerate(lsb_first) if ch == s1)
+                    want = set(j for j in range(max(width, len(s))) if (mask >> j) & 1)
+                    if named != want or set(s) - {s0, s1} or len(s) < width:
+                        F(("Bipartition.leafset_as_bitstring.names_mask", probe, "taxa %r of members %r (mask %s) rendered with reverse=%r as %r: names bits %r, required %r"
+                           % ([t._label for t in taxa], [t._label for t in members], bin(mask), rev, s, sorted(named), sorted(want))))
+                        break
+            except Exception as e:
+                F(("Bipartition.leafset_as_bitstring.raises", probe, "%s: %s" % (type(e).__name__, e)))
 
     def lookup(self, api, probe, call, want, kind):
         F = self.fails.append
